@@ -4,6 +4,7 @@
    harness/drv_C03.py on every run (outcome of every operation + the whole session state). *)
 From Coq Require Import String ZArith List.
 From Verif Require Import Lib.Base Lib.PyStr Model.Session Model.SessionCheck Proofs.Session_proofs Proofs.C03_proofs.
+From Verif Require Gen.Src_token Proofs.Src_refine.
 Import ListNotations.
 Open Scope string_scope.
 Open Scope Z_scope.
@@ -105,3 +106,16 @@ Example C03_nonvacuous :
     OInactive; OErr EInvalidToken; OActive [PS "openid"; PS "email"] c2 Access; OUserinfo;
     OErr EInvalidRequest ].
 Proof. vm_compute. reflexivity. Qed.
+
+(* TIE BY TRANSLATION: Item.is_active / max_usage_reached / supports_minting as they read in /repo/src NOW
+   (coq/Gen/Src_token.v is regenerated from the source on every run) compute the model's tok_active /
+   supports_minting.  Changing a comparison, dropping the revoked test or the usage limit in the source breaks
+   these statements. *)
+Theorem C03_is_active_is_source : forall t now clock,
+  now <> 0%Z -> Src_token.Item_is_active_src (Src_refine.inject_tok t) (VInt now) (VInt clock) = Ok (VBool (tok_active now t)).
+Proof. exact Src_refine.is_active_refines. Qed.
+Print Assumptions C03_is_active_is_source.
+Theorem C03_supports_minting_is_source : forall t c clock,
+  Src_token.SessionToken_supports_minting_src (Src_refine.inject_tok t) (VStr (Src_refine.cls_name c)) clock = Ok (VBool (supports_minting t c)).
+Proof. exact Src_refine.supports_minting_refines. Qed.
+Print Assumptions C03_supports_minting_is_source.
